@@ -63,7 +63,7 @@ func (k Keeper) PollCreate(ctx sdk.Context, msg *types.MsgPollCreate) (uint64, e
 		msg.Checksum,
 		roles,
 		options,
-		time.Now().Add(duration),
+		ctx.BlockTime().Add(duration),
 	)
 
 	if err != nil {
